@@ -146,6 +146,18 @@ CHECKS = {
         technique="Lean 4 proof (commutativity + induction over permutations) + real Ray runs under harness-chosen completion orders",
         ref="5/C08",
     ),
+    "C15": dict(
+        text="Theorems (Lean 4): in every propagation call the thrust is on exactly on the overlap of the call with [start, end] - for calls containing the "
+             "start, the end, both or neither, under the re-arm rule of _prepEvents and the phase-dependent event function - hence, by a telescoping clip "
+             "argument, the total time with thrust on is end - start for EVERY division of the run into calls (any step size, aligned or not); a witness "
+             "theorem records the unrepaired overrun (60-150 s with 60 s steps thrusts to 180 s). Tied to the code by comparing, call by call, the on/off "
+             "callback times of the real SpecialPerturbations/TwoBody propagators (real event classes, real prune rule) with the model's intervals, and the "
+             "final state with an independent coast/thrust/coast integration (the property itself).",
+        note=BASE_TB + "scipy's terminal-event location is the abstract integrator (an event fires at its root); trajectory equality is numerical, against a reference "
+             "integration with the same tolerances; boundaries within 1e-9 s before the end are excluded (the callback's tolerance).",
+        technique="Lean 4 proof (per-call overlap + telescoping) + differential correspondence of callback times + reference-trajectory oracle",
+        ref="5/C15",
+    ),
 }
 
 PLANNED = {}
